@@ -215,3 +215,56 @@ def build_text(work, text, name="build.flo", mem=False):
     if not ok:
         return ("false",)
     return ("ok", [house_sig(h) for h in b.houses])
+
+
+def build_from_commands(cmds):
+    """the house built by DISPATCH ALONE: no file, no tokenize, no line counter -- every command
+    is handed to Builder.dispatch in order (currentHuman set as the build loop does), then the
+    same resolve step as Builder.build.  Same result classes as build_text."""
+    from ioflo.base import housing
+    silence()
+    b = building.Builder()
+    housing.House.Clear()
+    housing.ClearRegistries()
+    try:
+        for toks in cmds:
+            b.currentHuman = " ".join(toks)
+            if not b.dispatch(list(toks)):
+                return ("false",)
+        try:
+            for house in b.houses:
+                house.orderTaskables()
+                house.resolve()
+        except excepting.ResolveError:
+            return ("false",)
+    except excepting.ParseError:
+        return ("ParseError",)
+    except Exception as ex:
+        return ("raise", type(ex).__name__)
+    return ("ok", [house_sig(h) for h in b.houses])
+
+
+class RecLoadBuilder(building.Builder):
+    """records every dispatched command; only the load verb is really executed (buildLoad)"""
+    def __init__(self, *a, **k):
+        super(RecLoadBuilder, self).__init__(*a, **k)
+        self.rec = []
+
+    def dispatch(self, tokens):
+        self.rec.append(list(tokens))
+        if tokens[0] == "load":
+            return super(RecLoadBuilder, self).dispatch(tokens)
+        return True
+
+
+def record_stream(work, files, root):
+    """files: {name: text} written into work; returns (commands dispatched, loop ran to the end)"""
+    silence()
+    for nm, txt in files.items():
+        write_tmp(work, txt, nm)
+    b = RecLoadBuilder(fileName=os.path.join(work, root))
+    try:
+        ok = bool(b.build())
+    except excepting.ParseError:
+        ok = False
+    return b.rec, ok
